@@ -14,6 +14,20 @@ CLAIMED = {
             "translator whitelist; harness printers. NaN scores excluded.",
             "Coq proof (induction over lists) + ast-regenerated tie lemma + vm_compute correspondence"),
 }
+CLAIMED["C02"] = ("7/C02",
+    "Coq theorems about the exact-rational model of threshold setting (in progress: see Props/C02.v for what is "
+    "proved); the model is tied to the source by regenerating all of the threshold-setting code (ratio properties, six "
+    "threshold_at_*, _threshold_at_ratio, _invert_increasing_function) into Gallina with 17 tie lemmas valid for all "
+    "inputs, and by bit-exact (stream E) / 64-ulp (stream F) correspondence runs",
+    "trusted: Coq kernel, vm_compute; binary64 nextafter as succ64/pred64; float rounding is outside the model (exact "
+    "rationals) and reached only through stream E exactness and the oracle on real floats; translator whitelist",
+    "Coq proof + ast-regenerated tie lemmas + vm_compute correspondence")
+CLAIMED["C03"] = ("7/C03",
+    "Coq theorems about the exact-rational model (in progress: see Props/C03.v); same ties as C02; thresholds at "
+    "extreme targets are sentinels (exact doubles) and are compared bit-for-bit on every stream; the oracle demands "
+    "equality of the metric with its value at -inf/+inf",
+    "as C02; two genuine defects were found by this check and repaired (known_findings.json: fixed 9ba2891, 33d4440)",
+    "Coq proof + ast-regenerated tie lemmas + vm_compute correspondence")
 PENDING = {}
 
 
@@ -43,7 +57,7 @@ def main():
         "setup_cmd": "./setup.sh",
         "hooks": {"guard": "SCORE_ANALYSIS_VERIF", "enable": "no hooks are needed: the harness drives /repo through PYTHONPATH=/repo and records RNG draws by wrapping numpy in its own process",
                   "baseline_off_cmd": "cd /repo && /venv/bin/python -m pytest -ra -q -p no:cacheprovider --timeout=900 --continue-on-collection-errors",
-                  "source_commits": [], "add_only": True},
+                  "source_commits": ["9ba2891 (fix:)", "33d4440 (fix:)"], "add_only": True},
         "engines": [{"name": "coq-model", "path": "/verif/coq", "serves_properties": sorted(CLAIMED),
                      "kind_free_text": "hand-written Gallina model of score_analysis with theorems per property (coq/theories/Props), "
                                        "tied to /repo by an ast translator + tie lemmas (coq/ties) and by vm_compute correspondence runs (harness/)"}],
